@@ -2,6 +2,7 @@
 EXTENDS GenToeplitz
 PartsQ == -2..2
 PartsS == -1..1
+Parts01 == 0..1
 ZQ == -1..1
 ZC == {0, 1}
 ====
